@@ -81,6 +81,7 @@ func (w *World) verifyCone(roots []*Contract, lemmas []*Lemma, sv *Solver, verbo
 		smt    string
 		pruned string
 		light  string
+		light1 string
 	}
 	var jobs []job
 	for _, fr := range frs {
@@ -90,7 +91,7 @@ func (w *World) verifyCone(roots []*Contract, lemmas []*Lemma, sv *Solver, verbo
 		ix := buildSliceIndex(fr.Decls, fr.declOwner, fr.axioms)
 		for i := range fr.Obls {
 			o := &fr.Obls[i]
-			jobs = append(jobs, job{fr, o, ix.smtText(o, false), ix.smtText(o, true), ix.smtTextLight(o)})
+			jobs = append(jobs, job{fr, o, ix.smtText(o, false), ix.smtText(o, true), ix.smtTextLight(o, 2), ix.smtTextLight(o, 1)})
 		}
 	}
 	rr.Results = make([]OblResult, len(jobs))
@@ -103,7 +104,7 @@ func (w *World) verifyCone(roots []*Contract, lemmas []*Lemma, sv *Solver, verbo
 			defer wg.Done()
 			defer func() { <-sem }()
 			j := jobs[i]
-			r := sv.solveVariants3(j.light, j.pruned, j.smt, j.o.Canary)
+			r := sv.solveVariants4(j.light, j.light1, j.pruned, j.smt, j.o.Canary)
 			rr.Results[i] = OblResult{O: j.o, R: r, SMT: j.smt}
 		}(i)
 	}
